@@ -1,4 +1,8 @@
-"""C01 — no input can crash, hang or corrupt the processing pipeline (DESIGN §3 C01)."""
+"""C01 — no input can crash, hang or corrupt the processing pipeline (DESIGN §3 C01).
+
+One harness (harness/c01.cpp, asan flavour; the 1000-element scale members also on the plain flavour, whose stack frames
+are the real ones). case = (seed document set, <= 2 deviations, parser mode[, isolated pipeline stage])."""
+import json
 import os
 import sup
 
@@ -7,24 +11,60 @@ def main(tier):
     c = sup.Check('C01', tier, 'exploration')
     quick = tier == 'quick'
     only = os.environ.get('C01_ONLY')
-    c.set_deadline(int(os.environ.get('C01_DEADLINE', 170 if quick else 1750)))
+    c.set_deadline(int(os.environ.get('C01_DEADLINE', 175 if quick else 1750)))
     c.build('asan', ['c01'])
+    if not quick:
+        c.build('plain', ['c01'])
 
-    def fam(name, **kw):
+    def fam(name, flavour='asan', **kw):
         if only and name not in only.split(','):
             return
-        c.run_family('asan', 'c01', name, **kw)
+        c.run_family(flavour, 'c01', name, **kw)
 
+    # quick: every seed; every single deviation (families a-d + document bytes) of the math-free seeds x both parser modes;
+    # MathML shapes of depth <= 2 (quick blocks); scale up to 250; cycles of length 1-3, every stage in isolation
     fam('seeds', per_case_timeout=30, chunk=1)
-    fam('cycles', per_case_timeout=20, chunk=4)
+    fam('cycles', per_case_timeout=20, chunk=6)
+    fam('scale', per_case_timeout=60, chunk=4)
     fam('dev1_mf', per_case_timeout=5)
     fam('shape_q', per_case_timeout=10)
-    fam('scale', per_case_timeout=60, chunk=1)
     if not quick:
+        fam('scale_hang', flavour='plain', per_case_timeout=4, chunk=1)
+        fam('scale_big', flavour='plain', per_case_timeout=120, chunk=1)
         fam('shape_d3', per_case_timeout=10)
         fam('dev1_math', per_case_timeout=10)
         fam('shape_t', per_case_timeout=10)
         fam('dev2_mf', per_case_timeout=5)
+    # every raw report of the run, for triage (not part of the evidence)
+    os.makedirs(os.path.join(sup.V, 'build', 'scratch'), exist_ok=True)
+    json.dump([{k: v.get(k) for k in ('family', 'i', 'sig')} for v in c.raw], open(os.path.join(sup.V, 'build', 'scratch', 'C01.raw.%s.json' % tier), 'w'))
+    weak = c.counters.get('weak_oracle_illformed', 0) + c.counters.get('weak_oracle_invalid', 0)
     return c.finish(
-        rule='TODO',
-        assumptions=['TODO'])
+        rule='a case is (seed document set, deviation(s), parser mode[, isolated stage]); index -> case is injective by construction (mixed-radix / prefix-sum '
+             'decoding, pairs by triangular index). Families: seeds (22 seed sets x 2 modes); dev1_* = EVERY single deviation of the alphabet at EVERY '
+             'applicable location of a seed: (a) attribute := each entry of the hostile menu of its kind (numeric, identifier, reference incl. self and '
+             'every same-kind name of the document set -> cycles of length 1-3, interface, href incl. own key, id, namespace declarations), delete / '
+             'duplicate / rename / add attribute, text of ci/cn; (b) element delete, duplicate, move under every other element, rename to every CellML '
+             '(MathML inside math) element name, namespace := 8 URIs for the element alone and for its subtree; (c) 15 kinds of inserted child (text, '
+             'comment, CDATA, character/undefined/declared entity references, PI, foreign elements) at every child position; (d) truncation at every '
+             'token boundary; (x) 22 document-level byte edits (prolog, encodings, BOM, UTF-16, DOCTYPE, entity amplification, NUL, trailing data); '
+             'dev2_mf = every PAIR from a reduced alphabet (every 5th menu entry, delete/duplicate, one move target per parent name, ...) of the math-free '
+             'seeds; shape_* = MathML trees over the validator\'s own vocabulary (supportedMathMLElements) + {csymbol, lambda, semantics, unknownop, sum}: '
+             'apply(head, 0-3 ci|cn operands) and container(name, 0-3 children) top-level and as right-hand side, apply(H, C) for all H and C, one arbitrary '
+             'operand among <= 3, containers with one arbitrary child, 10 filled qualifier forms in 5 arrangements, depth 3 over 14 arity-sensitive operators; '
+             'scale = 16 structures x n in {1,10,100,250} (+1000 on the plain build) x 8 isolated stages x 2 modes; cycles = 12 kinds x length 1-3 x 8 isolated '
+             'stages x 2 modes. judged = cases whose pipeline ran and returned (the crash oracle covers the others: a dead worker is a violation at that index); '
+             '%d of the judged cases also carry the weak expectation ">= 1 error/warning reported"' % weak,
+        assumptions=[
+            'crash oracle: ASan + UBSan (asan flavour), process exit status, uncaught exceptions via std::terminate, hang = no return within 30x the per-case limit when run alone',
+            'a stack overflow is named after the recursive function(s) found in a backtrace of the interrupted context (harness-side SIGSEGV handler in front of ASan\'s), so that the class is stable',
+            'depth/size 1000 members are run on the plain (-O2) build only: sanitizer stack frames are several times larger than real ones, so an overflow at depth 1000 under ASan is not evidence',
+            'weak expectation only where beyond dispute: text that libxml2 (called directly by the harness) finds ill-formed must give a parser error; a 2.0 main document with an '
+            'invalid number / identifier character / unknown element / non-blank text in a CellML element must give >= 1 error or warning in parser or validator; whether '
+            'a *valid* document is accepted, and which rule is cited, is C04',
+            'documents larger than 64 KiB are generated but not judged (outside the statement)',
+            'import hrefs never name an existing file (base path is a nonexistent directory): the library of imported documents is in memory (Importer::addModel), '
+            'the main document is reachable under its own key; device files and network locators are not in the menu',
+            'the exponential-time witness (units DAG with 2^64 paths) is run in the thorough tier only; the quick tier holds members of the same shape that terminate',
+            'Units::scalingFactor/compatible/equivalent and the Annotator are not part of the pipeline of this property',
+        ])
